@@ -25,9 +25,15 @@ def one_value(rep):
 def shard(p):
     acc = Acc()
     rng = rng_for(p["seed"], PID, p["shard"])
-    d = Driver(p["bin"])
+    d = Driver(p["bin"], env=p.get("env"))
     try:
-        V = G.Vocab(d)
+        if p.get("env"):
+            # the vocabulary (which words mean what, and the measured scales) is taken from a driver WITHOUT the special
+            # environment: a fault that the environment switches on must not also shift the yardstick
+            with Driver(p["bin"]) as d0:
+                V = G.Vocab(d0)
+        else:
+            V = G.Vocab(d)
         classes = {}
         for e in V.entries:
             classes.setdefault(e["dims"], []).append(e)
@@ -182,7 +188,8 @@ def run(tier, seed):
     bins = {k: build.build(k)["vdriver"] for k in ("dbg", "rel")}
     n = 36000 if tier == "quick" else 500000
     payloads = [{"seed": seed, "shard": i, "nshards": NCPU, "n": n // NCPU, "bin": bins["dbg"], "kind": "dbg", "thorough": tier == "thorough"} for i in range(NCPU)]
-    payloads += [{"seed": seed, "shard": 100 + i, "nshards": NCPU, "n": n // NCPU // 5, "bin": bins["rel"], "kind": "rel"} for i in range(NCPU)]     # release build: both tiers
+    payloads += [{"seed": seed, "shard": 100 + i, "nshards": NCPU, "n": n // NCPU // 5, "bin": bins["rel"], "kind": "rel",
+                  "env": {"RUST_LOG": "anything=trace"} if i % 2 else None} for i in range(NCPU)]     # release build: both tiers; every other shard with trace logging enabled
     acc = run_shards(shard, payloads)
     return finish(PID, tier, seed, "exploration", acc, RULE, t0,
                   assumptions=["offset scales (°C, °F) are excluded here and handled by C09", "dimension classes come from the frozen reference table"],
